@@ -112,6 +112,14 @@ def gen_history(rng, kids):
     ipins = [n for n, t in zip(init["names"], init["ty"]) if t == "bb_input"] if init else []
     for _ in range(rng.randint(5, 25)):
         r = rng.random()
+        if rng.random() < 0.04:
+            # a burst of uid adds of one base name: n, n_0, n_1, ... must all be fresh
+            base = rng.choice(["a", "g", "t"])
+            for _ in range(rng.randint(3, 13)):
+                calls.append({"op": "add", "a": {"n": base, "t": rng.choice(["buf", "not", "and"]), "fanin": pick_list(rng, present, 0)[:1],
+                                                 "fanout": [], "output": False, "uid": True}})
+            present.append(base)
+            continue
         if r < 0.10 and (opins or ipins):
             # pin-focused connects: list-valued targets / sources around blackbox pins
             if opins and (rng.random() < 0.6 or not ipins):
